@@ -124,13 +124,14 @@ def run_tasks(case):
   out = []
 
   def body():
-    for r in orchestrate.as_completed(cl.pool, tasks):
+    for r in (orchestrate.as_completed(cl.pool, tasks, ignore_failures=True) if case.get('ignore_failures')
+              else orchestrate.as_completed(cl.pool, tasks)):
       out.append(r)
   import contextlib  # pylint: disable=g-import-not-at-top
   try:
     with (answer_when_given_up() if at_give_up else contextlib.nullcontext()):
       status, res = dist.run_with_watchdog(body, 120)
-    acquired = [w.address for w in cl.pool.acquired_workers]
+    acquired = [w.address for w in cl.pool.all_workers if w.is_locked(cl.pool)]    # dead ones too
     hit = courier.STATS['faults_hit']
   finally:
     cl.done = True
@@ -138,7 +139,7 @@ def run_tasks(case):
   check(status != 'hang', 'hang', f'{what}: as_completed still running after 120 s')
   fails = any(t[0] == 'fail' for t in case['tasks'])
   want = sorted(t[1] + 1000 for t in case['tasks'] if t[0] == 'ok')
-  if fails:
+  if fails and not case.get('ignore_failures'):
     check(status == 'error', 'task-error-swallowed', f'{what}: a task raises but as_completed finished with {out}')
     cnt = collections.Counter(out)
     check(all(v == 1 for v in cnt.values()) and all(x in want for x in out), 'result-doubled-or-invented', f'{what}: yielded {out}')
@@ -147,8 +148,9 @@ def run_tasks(case):
       raise crash(res, what)
     check(sorted(out) == want, 'task-result-lost-or-doubled', f'{what}: yielded {sorted(out)}, want each of {want} exactly once')
   check(not acquired, 'workers-left-acquired', f'{what}: {acquired}')
-  return {'nontrivial': hit >= 1 and not fails, 'classes': ['as_completed', f'workers-{case["workers"]}'] + (['fault-hit'] if hit else []) + (
-      ['app-error'] if fails else [])}
+  return {'nontrivial': hit >= 1 and (not fails or bool(case.get('ignore_failures'))),
+          'classes': ['as_completed', f'workers-{case["workers"]}'] + (['fault-hit'] if hit else []) + (['app-error'] if fails else []) + (
+              ['ignore-failures'] if case.get('ignore_failures') else [])}
 
 
 def _plan(draw, workers, methods, maxlen):
@@ -183,7 +185,18 @@ def strat_tasks(tier):
                       for w in range(workers) if w != usable}
       if draw(st.booleans()):
         case['tasks'] = [['ok', i] for i in range(workers + 1)]      # one task each and one more for whoever is free first
+    if workers >= 2 and draw(st.integers(0, 5)) == 0:
+      # a worker goes away while it is acquired, and later the run ends through a task error: nothing may stay acquired
+      usable = draw(st.integers(0, workers - 1))
+      case['plan'] = {str(w): {'maybe_make': ['ok'] * draw(st.integers(0, 1)) + [draw(st.sampled_from(['die', 'die_graceful']))]}
+                      for w in range(workers) if w != usable}
+      n_ok = draw(st.integers(workers, workers + 4))
+      case['tasks'] = [['ok', i] for i in range(n_ok)] + [['fail', n_ok]]
     case['task_form'] = draw(st.sampled_from(['lazy', 'lazy', 'task', 'blocking']))
+    if draw(st.integers(0, 3)) == 0:
+      # failures of the tasks themselves are skipped (ignore_failures=True): time-outs and deaths are still retried, so every
+      # task that does not raise is still delivered exactly once
+      case['ignore_failures'] = True
     if case['task_form'] == 'blocking':
       case['answer_at'] = 'later'      # a blocking submission waits for the answer itself: nobody polls the worker meanwhile
       # ... so a call that is never answered would wait forever; a real transport ends the pending calls of a dead server with
@@ -222,7 +235,7 @@ def run_sharded(case):
     with (answer_when_given_up() if at_give_up else contextlib.nullcontext()):
       status, res = dist.run_with_watchdog(body, 120)
     results = dist.drain_queue(rq, wait_first=5.0 if status == 'ok' else 0.5)
-    acquired = [w.address for w in cl.pool.acquired_workers]
+    acquired = [w.address for w in cl.pool.all_workers if w.is_locked(cl.pool)]    # dead ones too
     hit = courier.STATS['faults_hit']
   finally:
     cl.done = True
